@@ -224,18 +224,29 @@ def scenario_grow(sseed, kind):
     """the space grows while the search runs (entries reported at end_trial): monitors only"""
     R = random.Random(sseed)
     tags = collections.Counter()
-    specs = gen.rand_specs(R, finite=R.random() < 0.7, maxdepth=2, nonfixed=(kind == "bayes"))
+    # focus: small finite space, retries allowed, INVALID-heavy outcomes, several tuners - a trial waiting for its retry
+    # while the space grows and the others keep sampling (the tried set must follow the retried trial's new values)
+    focus = R.random() < 0.5
+    if focus:
+        specs = gen.rand_specs(R, finite=True, maxdepth=1, top=(1, 2), nonfixed=(kind == "bayes"))
+    else:
+        specs = gen.rand_specs(R, finite=R.random() < 0.7, maxdepth=2, nonfixed=(kind == "bayes"))
     shim, undo = install_shim()
     try:
         with tempdir("ktr") as d:
             over = dict(max_epochs=R.randint(2, 6), factor=2, iterations=1) if kind == "hyperband" else dict(max_trials=R.randint(2, 10))
+            if focus:
+                over.update(max_retries_per_trial=R.randint(1, 2), max_consecutive_failed_trials=50)
+                if kind != "hyperband":
+                    over["max_trials"] = R.randint(8, 20)
+                tags["focus-retry-growth"] += 1
             o = gen.make_oracle(R, kind, specs, d, **over)
             starts = {}
             disc = [0]
             unseeded_in_create = []
 
             def discover(R_, t):
-                if R_.random() < 0.4 and disc[0] < 4:
+                if R_.random() < (0.7 if focus else 0.4) and disc[0] < (2 if focus else 4):
                     disc[0] += 1
                     nm = f"n{disc[0]}"
                     try:
@@ -250,6 +261,7 @@ def scenario_grow(sseed, kind):
                         pass
 
             seen_ids = set()
+            soft = []
 
             def on_end(o_, t, oc):
                 shim.log.clear()
@@ -257,13 +269,24 @@ def scenario_grow(sseed, kind):
             def on_create(o_, w, t):
                 unseeded = [p for s_, p in shim.log if s_ is None]
                 shim.log.clear()
-                if unseeded and t.status == "RUNNING":
-                    raise Violation("C12", f"{kind}: create_trial drew {len(unseeded)} unseeded random value(s) for trial {t.trial_id} "
-                                           f"(round {t.hyperparameters.values.get('tuner/round')})", {"tag": "unseeded-create", "kind": kind})
+                if unseeded and t.status == "RUNNING" and not any(v.pid == "C12" for v in soft):
+                    # collected, not raised: the other monitors of this scenario still run
+                    soft.append(Violation("C12", f"{kind}: create_trial drew {len(unseeded)} unseeded random value(s) for trial {t.trial_id} "
+                                                 f"(round {t.hyperparameters.values.get('tuner/round')})", {"tag": "unseeded-create", "kind": kind}))
                 if t.status != "RUNNING" or t.trial_id in seen_ids:
                     return
-                seen_ids.add(t.trial_id)
                 check_values(t)
+                nontuner = lambda vs: {k: v for k, v in vs.items() if not k.startswith("tuner/")}
+                if t.hyperparameters.values.get("tuner/round", 0) == 0 and not (
+                        kind == "bayes" and len([x for x in o_.trials.values() if x.status == "COMPLETED"]) >= (o_.num_initial_points or 3)):
+                    # the configuration as the oracle records it now (entries reported since the start included)
+                    cv_now = canon_vals(nontuner(t.hyperparameters.values))
+                    for oid in seen_ids:
+                        # promoted trials deliberately repeat their parent's configuration: only sampled ones are compared
+                        if oid in o_.trials and o_.trials[oid].hyperparameters.values.get("tuner/round", 0) == 0 and canon_vals(nontuner(o_.trials[oid].hyperparameters.values)) == cv_now:
+                            raise Violation("C06", f"{kind}: trial {t.trial_id} starts {cv_now}, the configuration trial {oid} holds now that the space has grown",
+                                            {"tag": "duplicate-grow-current", "kind": kind})
+                seen_ids.add(t.trial_id)
                 if t.hyperparameters.values.get("tuner/round", 0) != 0:
                     return
                 if kind == "bayes" and len([x for x in o_.trials.values() if x.status == "COMPLETED"]) >= (o_.num_initial_points or 3):
@@ -273,9 +296,21 @@ def scenario_grow(sseed, kind):
                 if cv in starts:
                     raise Violation("C06", f"{kind}: trial {t.trial_id} starts the configuration of trial {starts[cv]} again after the space grew: {cv}", {"tag": "duplicate-grow", "kind": kind})
                 starts[cv] = t.trial_id
-            run_schedule(o, R, steps=R.randint(10, 70), on_create=on_create, on_end=on_end, discover=discover, fair_finish=False)
+            try:
+                if focus:
+                    run_schedule(o, R, steps=R.randint(20, 80), ntuners=R.randint(2, 3), outcomes=["C", "C", "NAN", "INV", "INV", "NAN"],
+                                 on_create=on_create, on_end=on_end, discover=discover, fair_finish=False)
+                else:
+                    run_schedule(o, R, steps=R.randint(10, 70), on_create=on_create, on_end=on_end, discover=discover, fair_finish=False)
+            except Violation as v:
+                v.also = soft
+                raise
     finally:
         undo()
+    if soft:
+        v = soft[0]
+        v.also = soft[1:]
+        raise v
     return tags
 
 
@@ -284,17 +319,21 @@ def trace_of(sseed, kind):
     R = random.Random(sseed)
     with tempdir("ktt") as d:
         specs = gen.rand_specs(R, finite=(kind == "grid"), nonfixed=(kind == "bayes"))
+        if kind == "bayes":
+            # the acquisition step only matters on a continuous dimension with informative scores
+            specs.append({"name": "lr", "kind": "float", "conds": [], "lo": 0.001, "hi": 1.0, "step": None, "sampling": R.choice(["linear", "log"]), "default": None})
         over = dict(max_epochs=R.randint(1, 6), factor=2, iterations=1) if kind == "hyperband" else {}
         if kind == "bayes":
-            over = dict(max_trials=R.randint(4, 7), num_initial_points=2)
+            over = dict(max_trials=R.randint(5, 8), num_initial_points=2)
         o = gen.make_oracle(R, kind, specs, d, seed=R.choice([0, 5, R.randint(0, 999)]), **over)
         # tie-heavy scores: the winner among equal scores must not depend on hash ordering
+        palette = R.choice([[1], [1, 1, 1, 2, 0.5], [1, 2]]) if kind != "bayes" else [round(R.random() * 10, 3) for _ in range(12)]
         tr = run_schedule(o, R, steps=R.randint(8, 40) if kind != "hyperband" else R.randint(30, 90),
-                          score_of=lambda R_, t: float(R_.choice([1, 1, 1, 2, 0.5])), outcomes=["C"] * 6 + ["INV", "FAIL"])
+                          score_of=lambda R_, t: float(R_.choice(palette)), outcomes=["C"] * 6 + ["INV", "FAIL"])
     return [e for e in tr if e[0] == "create"]
 
 
-def run(seed, tier, n=None, subprocs=None):
+def run(seed, tier, n=None, subprocs=None, modes=("random", "random", "hyperband", "grow-random", "grow-hyperband", "determinism", "bayes", "random")):
     res = Result("sampling")
     res.rule = ("random search over discrete conditional spaces re-executed by the seeded-sampling model from the logged PRNG draws; every "
                 "_random_values call of Hyperband / Bayesian warm-up replayed stand-alone; growing spaces (entries reported at end_trial) and "
@@ -307,8 +346,8 @@ def run(seed, tier, n=None, subprocs=None):
     kinds4 = ("random", "grid", "hyperband", "bayes")
     for i in range(n):
         sseed = R.randrange(1 << 30)
-        mode = ("random", "random", "hyperband", "grow-random", "grow-hyperband", "determinism", "bayes", "random")[i % 8]
-        if tier == "quick" and mode == "bayes" and i % 16 != 6:
+        mode = modes[i % len(modes)]
+        if tier == "quick" and mode == "bayes" and i % 16 != 6 and len(modes) == 8:
             mode = "random"
         res.scenarios += 1
         try:
@@ -329,7 +368,8 @@ def run(seed, tier, n=None, subprocs=None):
                 lines, expect, doc = [], [], {"suite": "sampling", "mode": mode, "seed": sseed, "kind": kind}
                 res.evaluations += len(a)
         except Violation as v:
-            res.violations.append({"pid": v.pid, "what": v.what, "sig": v.sig, "replay": {"suite": "sampling", "seed": sseed, "mode": mode, "i": i}})
+            for x in [v] + list(getattr(v, "also", [])):
+                res.violations.append({"pid": x.pid, "what": x.what, "sig": x.sig, "replay": {"suite": "sampling", "seed": sseed, "mode": mode, "i": i, "kind": kinds4[(i // 8) % 4]}})
             continue
         res.hist.update(tags)
         res.hist["mode-" + mode] += 1
@@ -339,26 +379,29 @@ def run(seed, tier, n=None, subprocs=None):
             res.nontrivial.add(hashlib.sha1((json.dumps(lines, sort_keys=True) + str(sseed)).encode()).hexdigest())
         if len(res.samples) < 2 and lines and tags.get("collision-resampled"):
             res.samples.append({"scenario": doc, "ops": lines[1:3], "impl_answers": expect[1:3]})
-    # fresh interpreter, different PYTHONHASHSEED
+    # fresh interpreters with a different PYTHONHASHSEED, a batch of scenarios each
+    batch_n = 6 if tier == "quick" else 12
     for k in range(subprocs):
-        sseed = R.randrange(1 << 30)
-        kind = ("hyperband", "random", "hyperband", "grid", "bayes")[k % 5]
-        a = json.dumps(trace_of(sseed, kind), default=str)
-        env = dict(os.environ, PYTHONHASHSEED=str(1 + (sseed % 1000)), KT_REPO=REPO)
+        batch = [(R.randrange(1 << 30), ("hyperband", "hyperband", "random", "hyperband", "grid", "bayes")[j % 6]) for j in range(batch_n)]
+        here = [json.dumps(trace_of(ss, kd), default=str) for ss, kd in batch]
+        env = dict(os.environ, PYTHONHASHSEED=str(1 + (batch[0][0] % 1000)), KT_REPO=REPO)
         p = subprocess.run([sys.executable, "-c",
-                            f"import sys, json; sys.path.insert(0, {VERIF!r}); from harness import suite_sampling as s; print('TRACE' + json.dumps(s.trace_of({sseed}, {kind!r}), default=str))"],
-                           capture_output=True, text=True, env=env, timeout=600)
+                            f"import sys, json; sys.path.insert(0, {VERIF!r}); from harness import suite_sampling as s\n"
+                            f"for ss, kd in {batch!r}: print('TRACE' + json.dumps(s.trace_of(ss, kd), default=str))"],
+                           capture_output=True, text=True, env=env, timeout=1200)
         out = [l for l in p.stdout.splitlines() if l.startswith("TRACE")]
-        res.scenarios += 1
-        if not out:
+        if len(out) != len(batch):
             res.errors.append(f"fresh-interpreter run failed: {p.stderr[-200:]}")
             continue
-        if out[0][5:] != a:
-            res.violations.append({"pid": "C12", "what": f"{kind}: a fresh interpreter with another PYTHONHASHSEED issues different trials for seed scenario {sseed}",
-                                   "sig": {"tag": "two-processes", "kind": kind}, "replay": {"suite": "sampling", "seed": sseed, "mode": "subprocess", "kind": kind}})
-        else:
-            res.hist["fresh-interpreter-equal"] += 1
-            res.nontrivial.add(hashlib.sha1(a.encode()).hexdigest())
+        for (ss, kd), a, b in zip(batch, here, out):
+            res.scenarios += 1
+            if b[5:] != a:
+                res.violations.append({"pid": "C12", "what": f"{kd}: a fresh interpreter with another PYTHONHASHSEED issues different trials for seed scenario {ss}",
+                                       "sig": {"tag": "two-processes", "kind": kd}, "replay": {"suite": "sampling", "seed": ss, "mode": "subprocess", "kind": kd}})
+            else:
+                res.hist["fresh-interpreter-equal"] += 1
+                res.evaluations += a.count('"create"')
+                res.nontrivial.add(hashlib.sha1(a.encode()).hexdigest())
     try:
         out = run_driver(all_lines) if all_lines else []
     except Exception as e:
@@ -380,10 +423,28 @@ def replay(doc):
         elif mode.startswith("grow"):
             scenario_grow(doc["seed"], mode.split("-")[1])
             return res
+        elif mode == "determinism":
+            a, b = trace_of(doc["seed"], doc["kind"]), trace_of(doc["seed"], doc["kind"])
+            res.evaluations += len(a)
+            if a != b:
+                raise Violation("C12", f"{doc['kind']}: two runs with the same seed and schedule diverge", {"tag": "two-runs", "kind": doc["kind"]})
+            return res
+        elif mode == "subprocess":
+            a = json.dumps(trace_of(doc["seed"], doc["kind"]), default=str)
+            env = dict(os.environ, PYTHONHASHSEED=str(1 + (doc["seed"] % 1000)), KT_REPO=REPO)
+            p = subprocess.run([sys.executable, "-c",
+                                f"import sys, json; sys.path.insert(0, {VERIF!r}); from harness import suite_sampling as s; print('TRACE' + json.dumps(s.trace_of({doc['seed']}, {doc['kind']!r}), default=str))"],
+                               capture_output=True, text=True, env=env, timeout=600)
+            out = [l for l in p.stdout.splitlines() if l.startswith("TRACE")]
+            res.evaluations += a.count('"create"')
+            if out and out[0][5:] != a:
+                raise Violation("C12", f"{doc['kind']}: a fresh interpreter with another PYTHONHASHSEED issues different trials for seed scenario {doc['seed']}", {"tag": "two-processes", "kind": doc["kind"]})
+            return res
         else:
             return res
     except Violation as v:
-        res.violations.append({"pid": v.pid, "what": v.what, "sig": v.sig, "replay": doc})
+        for x in [v] + list(getattr(v, "also", [])):
+            res.violations.append({"pid": x.pid, "what": x.what, "sig": x.sig, "replay": doc})
         return res
     out = run_driver(lines) if lines else []
     compare(res, lines, expect, out, d)
